@@ -146,15 +146,22 @@ def decBody (fd : Nat) (sg t : Bytes) : Except VErr Int :=
     else if !allSpace r1 then .error .BadChar
     else decFinal fd sg ip []
 
-/-- `lyplg_type_parse_dec64(fraction_digits, value, value_len)`; `value[value_len]` is the terminating NUL. -/
-def parseDec64 (fd : Nat) (value : Bytes) : Except VErr Int :=
+/-- `lyplg_type_parse_dec64(fraction_digits, value, value_len)`; `value[value_len]` is the terminating NUL.
+    `needDigit`: whether the code refuses a sign that is not followed by a digit — the pinned tree does not (finding F2),
+    the repaired one does; the translator derives the flag by executing the C function (`Generated.dec64SignNeedsDigit`). -/
+def parseDec64With (needDigit : Bool) (fd : Nat) (value : Bytes) : Except VErr Int :=
   let v := value.dropWhile isSpace
   match v with
   | [] => .error .Empty
-  | c :: _ =>
+  | c :: t =>
     if !isDigit c && c.toNat != 45 && c.toNat != 43 then .error .BadChar
-    else if c.toNat == 45 || c.toNat == 43 then decBody fd [c] v.tail
-    else decBody fd [] v
+    else if c.toNat == 45 || c.toNat == 43 then
+      if needDigit && !(t.head?.map isDigit).getD false then .error .BadChar
+      else decBody fd [c] t
+    else decBody fd [] (c :: t)
+
+/-- the parser of the tree the model was generated from -/
+def parseDec64 (fd : Nat) (value : Bytes) : Except VErr Int := parseDec64With Generated.dec64SignNeedsDigit fd value
 
 /-! ## hints -/
 
@@ -300,13 +307,16 @@ def num2strBufNeed (fd : Nat) (num : Int) : Nat :=
     s.length + 2
 
 /-- `lyplg_type_store_decimal64`, text formats -/
-def storeDec64 (fd : Nat) (range : List (Int × Int)) (hints : Nat) (s : Bytes) : Except VErr Int :=
+def storeDec64With (needDigit : Bool) (fd : Nat) (range : List (Int × Int)) (hints : Nat) (s : Bytes) : Except VErr Int :=
   match checkHints hints "dec64" with
   | none => .error .Hint
   | some _ =>
-    match parseDec64 fd s with
+    match parseDec64With needDigit fd s with
     | .error e => .error e
     | .ok num => if validateRange (rangeIsUnsigned "dec64") range num then .ok num else .error .Range
+
+def storeDec64 (fd : Nat) (range : List (Int × Int)) (hints : Nat) (s : Bytes) : Except VErr Int :=
+  storeDec64With Generated.dec64SignNeedsDigit fd range hints s
 
 def lybDec64 (v : Int) : Bytes := leBytes 8 (v % 2 ^ 64).toNat
 
